@@ -33,6 +33,11 @@ class FileSpec:
         self.glob = None
         self.group = None                 # a recursive glob entry (tree/**/name) through which this file and its twin are configured
 
+    def _text(self, prj_render, idx, version):
+        # `known` maps a pattern index to a hand-written rendering (version string -> text) that does not go through bumpver's renderer
+        fn = getattr(self, "known", {}).get(idx)
+        return fn(version) if fn else prj_render(self.patterns[idx], version)
+
     def render(self, prj_render, version, old_version=None):
         out = []
         for segs, term in self.lines:
@@ -41,9 +46,9 @@ class FileSpec:
                     out.append(s.value)
                 elif s.kind == "dup":
                     # a second occurrence of the same pattern on the line: never matched (one match per line), so it keeps the OLD text
-                    out.append(prj_render(self.patterns[s.value], old_version or version))
+                    out.append(self._text(prj_render, s.value, old_version or version))
                 else:
-                    out.append(prj_render(self.patterns[s.value], version))
+                    out.append(self._text(prj_render, s.value, version))
             out.append(term)
         return "".join(out)
 
@@ -212,6 +217,15 @@ def scripted_specs():
     out.append(dict(base, legacy=True, vp="{semver}", old="1.2.3", flags=["--patch"], raw_entries=[("docs/*.md", ["Version: {version}"]), ("docs/index.md", ["pip install demo=={version}"])], files=[
         mk("docs/index.md", ["Version: {version}", "pip install demo=={version}"], [[O(0)], [T("run "), O(1)]]),
         mk("docs/changelog.md", ["Version: {version}"], [[O(0)], [T(hist)]])]))
+    # partial legacy patterns (short month, build number, release tag, year+month) with hand-written renderings of what they denote
+    import re as _re
+    def pyc(version):
+        m = _re.fullmatch(r"v(\d{4})(\d{2})\.(\d+)(?:-(\w+))?", version)
+        return int(m.group(1)), int(m.group(2)), m.group(3), m.group(4) or "final"
+    fs = mk("NEWS.md", ["Released in {year}-{month_short}", "build {build_no}, {release_tag}", "in {year}{month}", "{version}"],
+            [[T("# "), O(3)], [O(0), T(" by the team")], [O(1)], [T("archive "), O(2), T("/")]])
+    fs.known = {0: lambda v: "Released in %d-%d" % pyc(v)[:2], 1: lambda v: "build %s, %s" % pyc(v)[2:], 2: lambda v: "in %d%02d" % pyc(v)[:2]}
+    out.append(dict(base, legacy=True, vp="{pycalver}", old="v202401.1001-beta", flags=[], date=dt.date(2024, 4, 28), files=[fs]))
     # the match of a later pattern ENCLOSES the match of an earlier one on one line (it is then skipped there) and stands apart from it on
     # another line; the version grows in length
     out.append(dict(base, vp="MAJOR.MINOR.PATCH", old="1.2.9", flags=["--patch"], files=[
